@@ -348,6 +348,19 @@ func (p *service) processSubscribe(msg *message.SubscribeMessage) error {
 	}
 
 	for _, rm := range p.rmsgs {
+		if rm.QoS() != message.QosAtMostOnce {
+			// The stored message is shared with other connections and still carries
+			// its publisher's packet identifier: send a copy numbered for this
+			// connection.
+			m, err := rm.Clone()
+			if err != nil {
+				log.Warningf("(%s) Clone of retained message failed: %v", p.cid(), err)
+				continue
+			}
+			m.SetPacketID(p.nextPacketID())
+			rm = m
+		}
+
 		if err := p.publish(rm, nil); err != nil {
 			log.Warningf("(%s) Error publishing retained message: %v", p.cid(), err)
 			return err
